@@ -105,12 +105,13 @@ def parse_tla_value(s: str):
 def extract_tuples(out: str, head: str):
     """all printed tuples <<"head", ...>> in TLC output (bracket matching across interleaved lines)"""
     res = []
-    needle = '<<"%s"' % head
+    needle = re.compile(r'<<\s*"%s"' % re.escape(head))
     i = 0
     while True:
-        i = out.find(needle, i)
-        if i < 0:
+        m = needle.search(out, i)
+        if m is None:
             break
+        i = m.start()
         depth = 0
         j = i
         instr = False
